@@ -4,7 +4,7 @@
    Every list of ids in a case was produced by the implementation (Next-only enumeration of a
    fresh searcher); the harness never computes an expected result.  *)
 From Coq Require Import ZArith List Bool.
-From Verif Require Import Common.Bytes Cursor.Cursor Cursor.Machines Extracted.Extracted.
+From Verif Require Import Common.Bytes Cursor.Cursor Cursor.Machines Cursor.MachReaders Extracted.Extracted.
 Import ListNotations.
 Local Open Scope Z_scope.
 
@@ -72,6 +72,23 @@ Definition una_segments (isconj : bool) (leaves : list (list (list Z))) (nseg : 
   map (fun j => una_elems ((if isconj then una_and else una_or) (map shape_of (seg_column j leaves))))
       (seq 0 nseg).
 
+(* the snapshot layout the reader theorem ([tfr_cursor]) assumes: offsets start at 0 and do not
+   decrease, every local doc number is >= 0 and below the next segment's offset, postings ascend *)
+Fixpoint wf_segsb (segs : list (list Z)) (offs : list Z) : bool :=
+  match segs, offs with
+  | [], [] => true
+  | l :: segs', o :: offs' =>
+      ascendingb l &&
+      forallb (fun x => (0 <=? x) && match offs' with o' :: _ => x + o <? o' | [] => true end) l &&
+      (match offs' with o' :: _ => o <=? o' | [] => true end) &&
+      wf_segsb segs' offs'
+  | _, _ => false
+  end.
+Definition snapshot_ok (segs : list (list Z)) (offs : list Z) : bool :=
+  wf_segsb segs offs && match offs with o :: _ => o =? 0 | [] => true end.
+Definition nonneg_targets (prog : list call) : bool :=
+  forallb (fun c => match c with Advance t => 0 <=? t | Next => true end) prog.
+
 Definition model_tree (t : stree) (prog : list call) : option (list res) :=
   let t' := with_guard XCursor.boolean_should_guard t in
   run (default_fuel t') (build t') prog.
@@ -89,19 +106,20 @@ Definition check (c : case) : bool :=
       trace_eqb (run_spec (denote t) prog) impl
   | CTfr segs offs prog impl =>
       let L := tfr_global segs offs in
-      ascendingb L &&
+      ascendingb L && snapshot_ok segs offs && nonneg_targets prog &&
       otrace_eqb (tfr_run (tfr_init false segs offs) prog) impl &&
       (if forward L prog then trace_eqb (run_spec L prog) impl else true)
   | CDid segs offs prog impl =>
       let L := tfr_global segs offs in
-      ascendingb L && forward L prog &&
+      ascendingb L && snapshot_ok segs offs && forward L prog &&
       otrace_eqb (did_run (did_init segs offs) prog) impl &&
       trace_eqb (run_spec L prog) impl
   | CUna isconj leaves offs prog impl =>
       let segs := una_segments isconj leaves (length offs) in
       let L := tfr_global segs offs in
       let globals := map (fun l => tfr_global l offs) leaves in
-      forallb ascendingb globals &&
+      forallb ascendingb globals && forallb (fun l => snapshot_ok l offs) leaves && snapshot_ok segs offs &&
+      nonneg_targets prog &&
       list_eqb Z.eqb L (if isconj then inter_all globals else at_least 1 globals) &&
       otrace_eqb (tfr_run (tfr_init true segs offs) prog) impl &&
       (if forward L prog then trace_eqb (run_spec L prog) impl else true)
